@@ -42,7 +42,32 @@ def fb(x):
     return str(f2b(float(x)))
 
 
-def custom_table(rng):
+def _curve_positive(table):
+    """every parabola through three consecutive points (and the line through the first two) stays a drag coefficient (> 0.02) on the
+    intervals where the solver may use it, up to Mach 8.  A random table whose fitted parabolas dip below zero is not a drag table:
+    negative drag accelerates the projectile without bound (1e19 fps within three steps), and nothing the properties say is about
+    such input.  Written independently of the code under test."""
+    pts = [(float(p['Mach']), float(p['CD'])) for p in table]
+    n = len(pts)
+
+    def parab(i):
+        (x1, y1), (x2, y2), (x3, y3) = pts[i - 1], pts[i], pts[i + 1]
+        return lambda x: (y1 * (x - x2) * (x - x3) / ((x1 - x2) * (x1 - x3)) + y2 * (x - x1) * (x - x3) / ((x2 - x1) * (x2 - x3)) +
+                          y3 * (x - x1) * (x - x2) / ((x3 - x1) * (x3 - x2)))
+    (xa, ya), (xb, yb) = pts[0], pts[1]
+    fs = [(lambda x: ya + (yb - ya) / (xb - xa) * (x - xa), 0.0, xb)]
+    for i in range(1, n - 1):
+        lo = pts[i - 1][0]
+        hi = pts[i + 1][0] if i < n - 2 else 8.0
+        fs.append((parab(i), lo, hi))
+    for f, lo, hi in fs:
+        for k in range(33):
+            if f(lo + (hi - lo) * k / 32.0) <= 0.02:
+                return False
+    return True
+
+
+def _custom_table(rng):
     n = rng.choice([3, 4, 6, rng.randint(8, 40)])
     xs = sorted({round(rng.uniform(0, 5), 3) for _ in range(n * 2)})[:n]
     while len(xs) < 3:
@@ -52,6 +77,14 @@ def custom_table(rng):
     while len(xs) < 3:
         xs.append(xs[-1] + 0.5)
     return [{'Mach': x, 'CD': round(rng.uniform(0.1, 0.6), 4)} for x in xs]
+
+
+def custom_table(rng):
+    for _ in range(30):
+        t = _custom_table(rng)
+        if _curve_positive(t):
+            return t
+    return [{'Mach': 0.0, 'CD': 0.3}, {'Mach': 1.0, 'CD': 0.4}, {'Mach': 2.5, 'CD': 0.3}, {'Mach': 5.0, 'CD': 0.25}]
 
 
 def gen_config(rng, p_default=0.5):
@@ -163,11 +196,17 @@ def gen_lob(pbc, rng):
     """a low-drag projectile lobbed at 75-88 degrees: subsonic on the way up, supersonic again in thin air on the way down,
     moving backwards in a head wind - the corners flat rifle shots never reach (several sonic crossings, vx <= 0 rows)"""
     U = pbc.Unit
-    dm = pbc.DragModel(rng.uniform(1.5, 5.0), getattr(pbc, rng.choice(['TableG1', 'TableG7'])), U.Grain(rng.uniform(300, 800)), U.Inch(0.5), U.Inch(2.0))
-    ammo = pbc.Ammo(dm, U.FPS(rng.uniform(2000, 3000)))
+    if rng.random() < 0.7:
+        # the band (apex about 35-50 thousand ft) in which the projectile is subsonic at the apex, supersonic again on the way
+        # down and subsonic once more in the dense air below: TWO falls through the speed of sound
+        dm = pbc.DragModel(rng.uniform(2.3, 2.6), pbc.TableG7, U.Grain(rng.uniform(300, 800)), U.Inch(0.5), U.Inch(2.0))
+        ammo = pbc.Ammo(dm, U.FPS(rng.uniform(2300, 2800)))
+    else:
+        dm = pbc.DragModel(rng.uniform(1.5, 5.0), getattr(pbc, rng.choice(['TableG1', 'TableG7'])), U.Grain(rng.uniform(300, 800)), U.Inch(0.5), U.Inch(2.0))
+        ammo = pbc.Ammo(dm, U.FPS(rng.uniform(2000, 3000)))
     weapon = pbc.Weapon(U.Inch(2), rng.choice([0, 10]))
     winds = [] if rng.random() < 0.5 else [pbc.Wind(U.MPH(rng.uniform(5, 30)), U.Degree(rng.choice([0.0, 180.0, 90.0])))]
-    return pbc.Shot(weapon, ammo, U.Degree(0), U.Degree(rng.uniform(75, 88)), U.Degree(0), pbc.Atmo.icao(), winds)
+    return pbc.Shot(weapon, ammo, U.Degree(0), U.Degree(rng.uniform(76, 87)), U.Degree(0), pbc.Atmo.icao(), winds)
 
 
 def enc_config(cfg):
